@@ -1039,7 +1039,8 @@ def gen_clipairs(rng, fs, i, cfg):
 def gen_clitabix(rng, fs, i, cfg):
     """Upper-triangle pairs sorted by (chrom1, pos1), bgzipped and tabix-indexed by the op."""
     kind = rng.choice(["fixed", "fixed-exact", "variable", "mixed-one"])
-    lay = gen.gen_layout(rng, cfg.get("maxchroms", 4), cfg.get("maxbins", 8), kind)
+    # (a .tbi index cannot address positions beyond 2**29: no scaled coordinates here)
+    lay = gen.gen_layout(rng, cfg.get("maxchroms", 4), cfg.get("maxbins", 8), kind, noscale=True)
     n = gen.nbins_of(lay)
     support = gen.gen_support(rng, n, True, rng.choice([None, "dense", "sparse", "row"]), 30)
     if not support:
